@@ -2256,9 +2256,8 @@ fn eval_int_binop(
                 }
             }
         }
-        BinaryOperatorKind::Modulo => match lhs_num.checked_rem_euclid(rhs_num) {
-            Some(num) => Value::new(Value_::Int(num)),
-            None => {
+        BinaryOperatorKind::Modulo => {
+            if rhs_num == 0 {
                 return Err((
                     RestoreValues(vec![lhs_value.clone(), rhs_value.clone()]),
                     EvalError::Exception(ExceptionInfo {
@@ -2270,7 +2269,11 @@ fn eval_int_binop(
                     }),
                 ));
             }
-        },
+
+            // The only other case where checked_rem_euclid returns
+            // None is i64::MIN % -1, whose remainder is 0.
+            Value::new(Value_::Int(lhs_num.wrapping_rem_euclid(rhs_num)))
+        }
         BinaryOperatorKind::Exponent => {
             if rhs_num < 0 {
                 return Err((
